@@ -3,6 +3,7 @@ package sym
 import (
 	"fmt"
 	"go/token"
+	"hash/fnv"
 	"io"
 	"os"
 	"sort"
@@ -696,7 +697,10 @@ func (in *Interp) reach(label string) {
 		return
 	}
 	in.reached[label] = true
-	key := decisionKey(in.taken)
+	// order paths by a hash of their decision list: still a deterministic
+	// choice, but the exploration order (which walks the decision tree in a
+	// regular direction) does not make every new path the smallest so far
+	key := hashedKey(in.taken)
 	in.stats.mu.Lock()
 	in.stats.Witnesses[label]++
 	kept := in.stats.witnessKept[label]
@@ -734,6 +738,13 @@ func (in *Interp) reach(label string) {
 type keptWitness struct {
 	key   string
 	model map[string]interface{}
+}
+
+func hashedKey(d []int) string {
+	k := decisionKey(d)
+	h := fnv.New64a()
+	h.Write([]byte(k))
+	return fmt.Sprintf("%016x", h.Sum64()) + k
 }
 
 func decisionKey(d []int) string {
